@@ -650,8 +650,17 @@ func runFSBlob(c *core.Ctx) {
 			n++
 			key := fmt.Sprintf("blobs:%s|%s#%d", kn(c.P.FuncName(s.fn)), s.name, pi)
 			switch s.name {
-			case "os.MkdirAll", "os.Mkdir", "os.Remove":
-				c.Pass(key, s.call.Pos(), "directory creation / removal")
+			case "os.Remove":
+				// the removal of a blob file (a path with parts of a digest) is the delete operation's business: anywhere else —
+				// the upload commit ‘making room’ for the rename — an acknowledged blob does not exist under its name for a
+				// moment, and a crash in that moment loses it although the rename alone would have replaced it atomically
+				if usesDigest(p) && !(s.fn.Name() == "blobDelete" || s.fn.Name() == "BlobDelete") {
+					c.Fail(key, s.call.Pos(), "%s removes a blob file at %s outside the delete operation: between this removal and whatever replaces the file the blob — possibly acknowledged long ago and referenced by tags — does not exist; a crash there loses it (rename replaces atomically and needs no removal)", c.P.FuncName(s.fn), c.P.Pos(s.call.Pos()))
+					continue
+				}
+				c.Pass(key, s.call.Pos(), "directory removal, or the blob removal of the delete operation")
+			case "os.MkdirAll", "os.Mkdir":
+				c.Pass(key, s.call.Pos(), "directory creation")
 			case "os.Rename":
 				if pi != 1 {
 					c.Fail(key, s.call.Pos(), "a blob is renamed away from the blobs directory")
